@@ -230,6 +230,12 @@ func init() {
 				collide = append(collide, struct{ id, g1, g2, why string }{"reserved-must/" + r, "Must" + r, "", "Must-prefixed"})
 				collide = append(collide, struct{ id, g1, g2, why string }{"reserved-ctx/" + r, r + "InContext", "", "InContext-suffixed or reserved"})
 			}
+			for _, g := range []string{"Must", "Mustang", "Mustx", "Must1", "Must_x", "MustInContext", "InContext", "xInContext", "aMustInContext"} {
+				collide = append(collide, struct{ id, g1, g2, why string }{"spelling/" + g, g, "", "Must-prefixed or InContext-suffixed"})
+			}
+			// a getter X with a Must-getter collides with a getter MustX of another service, whatever the case of X
+			collide = append(collide, struct{ id, g1, g2, why string }{"must-twin/ang", "ang", "Mustang", "MustX of one service equals the getter of another"})
+			collide = append(collide, struct{ id, g1, g2, why string }{"ctx-twin/fetch", "fetch", "fetchInContext", "XInContext of one service equals the getter of another"})
 			collide = append(collide, struct{ id, g1, g2, why string }{"must-prefix", "MustFetch", "", "Must-prefixed"})
 			collide = append(collide, struct{ id, g1, g2, why string }{"ctx-suffix", "FetchInContext", "", "InContext-suffixed"})
 			seen := map[string]bool{}
